@@ -290,6 +290,49 @@ def faults(t):
             expect_refused(t, "C12|make_header|overlong-uid", {"kind": "make_header", "version": v, which: "a" * 37}, lambda: hd.make_header(v, **{which: "a" * 37}))
 
 
+def client_headers(t):
+    """the header in front of what ONE client object writes, as its per-call version override goes from each supported
+    version to each other one and back (ofxget's profile scan does this with one client): of the kind the version of
+    that call asks for, with that version and the file UIDs of that call"""
+    from vf.core import private_xdg
+
+    private_xdg()
+    from ofxtools.Client import OFXClient
+    from ofxtools.models.ofx import OFX
+
+    vs = H.SUPPORTED_V1 + H.SUPPORTED_V2
+    for a in vs:
+        for b in vs:
+            if a == b:
+                continue
+            cl = OFXClient("http://x/ofx", version=a)
+            ofx = OFX(signonmsgsrqv1=cl.signon("pw"))
+            for i, v in enumerate((a, b, a)):
+                t.count("evaluations")
+                case = {"kind": "client-header-sequence", "client_version": a, "versions": [a, b, a], "step": i}
+                old, new = (None, None) if i != 1 else ("o" * 36, "n" * 36)
+                kw = {} if v == a and i == 0 else {"version": v}
+                try:
+                    data = cl.serialize(ofx, oldfileuid=old, newfileuid=new, **kw)
+                    text = data.decode("ascii")
+                except Exception as e:
+                    t.fail("C12|client.serialize|version-sequence|supported-version-refused", case, f"{type(e).__name__}: {e}")
+                    break
+                major = v // 100
+                cut = text.find("<OFX>")
+                exp = H.v1_fields(v, None, old=old, new=new) if major == 1 else H.v2_fields(v, None, old, new)
+                try:
+                    written = H.parse_written_v1(text[:cut]) if major == 1 else H.parse_written_v2(text[:cut])
+                except Exception as e:
+                    t.fail("C12|client.serialize|version-sequence|wrong-kind-or-layout", case, f"{text[:cut]!r}: {e}")
+                    break
+                if written != exp:
+                    t.fail("C12|client.serialize|version-sequence|fields-differ", case, f"written {written} expected {exp}")
+                    break
+            else:
+                t.outcome("client-sequence-ok")
+
+
 def selfcheck():
     f = H.v1_fields(102)
     assert H.parse_written_v1(H.render_v1(f)) == f
@@ -315,6 +358,7 @@ def run(ctx):
     tally = ctx.pmap(valid_work, jobs)
     faults(tally)
     edited_headers(tally, hd)
+    client_headers(tally)
     if "refused" not in tally.outcomes or "valid-ok-v1" not in tally.outcomes or "valid-ok-v2" not in tally.outcomes:
         if not tally.fails:
             vacuous(tally, "vacuous: an outcome class was never observed")
@@ -343,6 +387,8 @@ def replay(ctx, case):
     t = Tally()
     if case["kind"] == "valid":
         valid_case(t, hd, case["version"], case["security"], case["old"], case["new"])
+    elif case["kind"] == "client-header-sequence":
+        client_headers(t)
     else:
         faults(t)
     for sig, (n, c, d) in sorted(t.fails.items()):
